@@ -260,12 +260,17 @@ func randomCase(r *rand.Rand, g *gen.Gen, spelled bool) *diffCase {
 	if len(g.Keys) == 3 && r.Intn(4) == 0 {
 		g.Keys = RichKeys
 	}
-	d := &diffCase{P: g.Path(5, 2)}
+	d := &diffCase{}
 	var doc interface{}
-	if r.Intn(3) == 0 {
-		doc = g.Doc(5)
+	if r.Intn(48) == 0 {
+		d.P, doc = g.DeepCase() // far beyond the usual 5 levels / 5 steps
 	} else {
-		doc = g.DocFor(d.P)
+		d.P = g.Path(5, 2)
+		if r.Intn(3) == 0 {
+			doc = g.Doc(5)
+		} else {
+			doc = g.DocFor(d.P)
+		}
 	}
 	d.Doc = lib.JS(doc)
 	d.UseNum = r.Intn(2) == 0
